@@ -1,8 +1,9 @@
 #!/usr/bin/env python3
 """C05 stream writes: proofs (Properties_C05.v) + correspondence of Model/StreamWrite.v
 with the write path of src/unix/stream.c of the current tree (real libuv on a
-socketpair / TCP loopback, write/writev/sendmsg/shutdown wrapped and scripted)."""
-import json, os, sys
+socketpair / TCP loopback, write/writev/sendmsg/shutdown wrapped and scripted; and on
+streams whose uv_tcp_connect / uv_pipe_connect is still pending when the script starts)."""
+import json, os, re, sys
 sys.path.insert(0, os.path.join(os.path.dirname(os.path.abspath(__file__)), "..", "lib"))
 import vf
 
@@ -132,6 +133,82 @@ def gen_case(rng):
                                                " ".join(script), len(tail))
 
 
+def gen_conn_case(rng):
+    """scripts that start between uv_tcp_connect/uv_pipe_connect and the connect callback"""
+    conn = rng.choice(["t0", "t0", "t0", "t1", "t3", "u0", "u0", "u0", "u2", "T", "T", "U"])
+    shutans = rng.choice([0] * 9 + [107])
+    ops, behs, script, written = [], [], [], []
+
+    def wr(big_ok=True):
+        r = rng.random()
+        if r < 0.35:
+            b = [0] * rng.choice([1, 1, 2, 3, 5])          # nothing but zero-length buffers
+        else:
+            b = gen_bufs(rng, big_ok)
+        written.append(b)
+        return lens_str(b)
+
+    def some_op(top, big_ok):
+        r = rng.random()
+        if r < 0.50:
+            return "W" + wr(big_ok)
+        if r < 0.62:
+            return "T" + lens_str(gen_bufs(rng, False))
+        if r < 0.85:
+            return "S"
+        if r < 0.90:
+            return "C"
+        return "R" if top else "S"
+    # while the connect is pending
+    for _ in range(rng.choice([0, 1, 1, 2, 2, 3, 4, 6])):
+        r = rng.random()
+        ops.append("W" + wr() if r < 0.7 else ("T" + lens_str(gen_bufs(rng, False)) if r < 0.85 else "S"))
+    if rng.random() < 0.55 and "S" not in ops:
+        ops.append("S")
+    if rng.random() < 0.05:
+        ops.append("C")
+    ops += ["R"] * rng.choice([1, 1, 2, 4])
+    for _ in range(rng.choice([0, 0, 1, 3, 6])):
+        ops.append(some_op(True, False))
+    for _ in range(rng.choice([0, 0, 1, 2, 5])):
+        behs.append(" ".join(some_op(False, False) for _ in range(rng.choice([0, 1, 1, 2]))))
+    bounds = [0, 1]
+    for b in written:
+        acc = 0
+        for x in b[:40]:
+            acc += x
+            bounds += [acc, acc + 1, max(0, acc - 1)]
+    for _ in range(rng.choice([0, 0, 2, 5, 10])):
+        r = rng.random()
+        script.append("n%d" % rng.choice(bounds) if r < 0.5 else
+                      rng.choice(["e11", "e105", "e4", "e4", "n0", "p", "e32"]))
+    zeros = sum(1 for b in written for x in b if x == 0)
+    tail = ["R"] * (min(zeros, 1600) + len(script) + 12)
+    if rng.random() < 0.4:
+        tail += ["C", "R"]
+    return "0 %d %s ; %s ; %s ; %s ; settle%d" % (shutans, conn, " ".join(ops + tail), " | ".join(behs),
+                                                  " ".join(script), len(tail))
+
+
+FIXED_CONN = [
+    # the path the integrator's seeded change broke: only zero-length buffers queued while connecting, then shutdown
+    "0 0 t0 ; W0 S R R R R ; ; ; settle4",
+    "0 0 u0 ; W0,0 S R R R R R ; ; ; settle5",
+    "0 0 t2 ; W0 W3,0 W0 S R R R R R R R R ; ; ; settle8",
+    # more than IOV_MAX buffers and a mix queued before the connect callback
+    "0 0 t0 ; W1*1030 W0 W2,0,3 T1 S R R R R R R ; ; ; settle6",
+    "0 0 u0 ; W5 W0 R R R R ; W1 S | ; n2 e11 ; settle4",
+    # connect refused with writes (and a shutdown) queued: flushed with UV_ECANCELED
+    "0 0 T ; W3 W0 R R R C R ; ; ; settle3",
+    "0 0 U ; W3 S R R R ; ; ; settle3",
+    "0 0 T ; W3 W0 S R R R C R ; W1 | ; ; settle3",
+    # shutdown with nothing queued while the connect is pending (finding: it is never carried out)
+    "0 0 t0 ; S R R R R ; ; ; settle4",
+    # close while connecting
+    "0 0 t0 ; W2 S C R R ; ; ; settle2",
+]
+
+
 FIXED = [
     # write + shutdown issued from inside a write callback (shutdown callback came first before the
     # repair of uv__stream_io, finding shutdown_cb_before_nested_write_cb; also first line of the corpus)
@@ -173,6 +250,9 @@ def monitor(case, line):
     last_chunk_id = -1
     in_try = None
     in_cb = False
+    hdr0 = case.split(";")[0].split()
+    conn_case = len(hdr0) > 2 and hdr0[2][0] in "tuTU"
+    conn_status, pending_at_conn, shut_pending_at_conn, conn_step_open = None, [], False, False
     left_at_shut = []
 
     def outstanding_bytes():
@@ -195,9 +275,12 @@ def monitor(case, line):
         elif k == "t":
             i, t = a.split(","); i = int(i)
             total[i] = int(t); acc[i] = 0; is_try.add(i)
-            in_try = (i, outstanding_bytes())
+            in_try = (i, outstanding_bytes(), conn_case and conn_status is None)
         elif k == "u":
             i, c = a.split(":"); i, c = int(i), int(c)
+            if in_try and in_try[2] and (c != EAGAIN or acc[i] > 0) and c not in (EBADF,):
+                return (None, "uv_try_write while the connect was pending returned %d and wrote %d bytes, "
+                              "not UV_EAGAIN" % (c, acc[i]))
             if in_try and in_try[1] > 0 and (c != EAGAIN or acc[i] > 0):
                 return (None, "uv_try_write overtook %d queued bytes (returned %d, wrote %d)" % (in_try[1], c, acc[i]))
             if c >= 0 and c != acc[i]:
@@ -243,12 +326,21 @@ def monitor(case, line):
                 return (None, "write_queue_size is %d inside the callback of %d, unsent bytes of pending requests: %d" % (q, i, exp))
         elif k == "q":
             in_cb = False
+            conn_step_open = False
             exp = outstanding_bytes()
             if int(a) != exp:
                 return (None, "write_queue_size is %d, unsent bytes of pending requests: %d" % (int(a), exp))
+        elif k == "k":
+            in_cb = True
+            conn_status = int(a[1:])
+            pending_at_conn = [i for i in total if ret.get(i) == 0 and i not in cbs and i not in is_try]
+            shut_pending_at_conn = shut_ok_at is not None and not any(e[0] == "B" for e in trace[:pos])
+            conn_step_open = True
         elif k == "s":
             if int(a[1:]) == 0:
                 shut_ok_at = pos
+                if conn_step_open and conn_status is not None and conn_status < 0:
+                    shut_pending_at_conn = True       # issued from the callback of the failed connect
         elif k == "Y":
             sys_shut = int(a[1:])
             left_at_shut = [i for i in total if ret.get(i) == 0 and i not in cbs and acc[i] != total[i]
@@ -276,7 +368,15 @@ def monitor(case, line):
         if stuck:
             return (None, "requests %s never got their callback although the loop kept running (stalled queue)" % stuck[:5])
         if shut_ok_at is not None and not any(e[0] == "B" for e in trace):
+            if conn_status is not None and shut_pending_at_conn and (conn_status < 0 or not pending_at_conn):
+                return (KNOWN_SHUT_CONN, "uv_shutdown issued while the connect was pending is never carried out: at "
+                        "the connect callback (status %d) no write was queued, POLLOUT was stopped and "
+                        "uv__drain is not reached; the shutdown callback never runs and the loop stays alive"
+                        % conn_status)
             return (None, "uv_shutdown succeeded but its callback never ran")
+        if " t" in case.split(";")[0] or " u" in case.split(";")[0]:
+            if conn_status is None and "x" not in trace:
+                return (None, "the connect callback never ran")
     return None
 
 
@@ -334,22 +434,21 @@ def run_mode(chk, name, harness_cmd, model, cases):
         chk.violation("%s: model produced %d lines for %d cases %s" % (name, len(b), len(cases), (err2 or "")[-300:]),
                       {"kind": "correspondence", "obligation": name}, found_input=False)
         return
-    nbad = 0
+    disagreements, bad_traces = [], []
     for c, al, bl in zip(cases, a, b):
         if al == "SKIP":
             continue
         impl_trace = al.split(";")[0]
+        hdr = c.split(";")[0].split()
+        if len(hdr) > 2 and hdr[2][0] in "TU":      # nobody ever accepted: no peer, no EOF to compare
+            impl_trace = re.sub(r"e(\d+),\d,(\d)\s*$", r"e\1,-,\2", impl_trace.rstrip())
+            bl = re.sub(r"e(\d+),\d,(\d)\s*$", r"e\1,-,\2", bl.rstrip())
         chk.count(name, c + "=>" + impl_trace)
         verdict = monitor(c, al)
         if vf.canon(impl_trace) != vf.canon(bl):
             chk.cov["disagreements_checked"] += 1
-            nbad += 1
-            if nbad <= 3:
-                reason = verdict[1] if verdict and verdict[0] is None else None
-                chk.violation("%s: implementation and model disagree%s" % (name, (": " + reason) if reason else ""),
-                              {"kind": "correspondence", "obligation": name, "case": c, "impl": al,
-                               "model": bl, "model_input": model_input(c, al), "monitor": reason},
-                              found_input=reason is not None)
+            reason = verdict[1] if verdict and verdict[0] is None else None
+            disagreements.append((c, al, bl, reason))
         elif verdict:
             key, reason = verdict
             f = chk.match_known(key) if key else None
@@ -357,11 +456,20 @@ def run_mode(chk, name, harness_cmd, model, cases):
                 chk.known_hit(f)
                 chk.cov.setdefault("known_finding_cases", {}).setdefault(key, c)
             else:
-                nbad += 1
-                if nbad <= 3:
-                    chk.violation("%s: trace violates the property: %s" % (name, reason),
-                                  {"kind": "monitor", "obligation": name, "case": c, "impl": al, "key": key},
-                                  found_input=True)
+                bad_traces.append((c, al, key, reason))
+    # report at most three per kind, those with a failing input first, shortest case first
+    disagreements.sort(key=lambda d: (d[3] is None, len(d[0])))
+    for c, al, bl, reason in disagreements[:3]:
+        chk.violation("%s: implementation and model disagree%s" % (name, (": " + reason) if reason else ""),
+                      {"kind": "correspondence", "obligation": name, "case": c, "impl": al,
+                       "model": bl, "model_input": model_input(c, al), "monitor": reason,
+                       "disagreeing_cases": len(disagreements)},
+                      found_input=reason is not None)
+    bad_traces.sort(key=lambda d: len(d[0]))
+    for c, al, key, reason in bad_traces[:3]:
+        chk.violation("%s: trace violates the property: %s" % (name, reason),
+                      {"kind": "monitor", "obligation": name, "case": c, "impl": al, "key": key},
+                      found_input=True)
     chk.corr(name, len(cases))
     return a
 
@@ -394,6 +502,8 @@ def main():
         if os.path.exists(cpath) else []
     n = 40000 if thorough else 6000
     gen = [gen_case(chk.rng) for _ in range(n)]
+    conn_corpus = [l for l in corpus if len(l.split(";")[0].split()) > 2]
+    corpus = [l for l in corpus if len(l.split(";")[0].split()) <= 2]
     cases = FIXED + corpus + gen
     a = run_mode(chk, "stream.c write path = Model/StreamWrite.v (unix socketpair via uv_pipe_open)",
                  [hs, "unix"], model, cases)
@@ -405,6 +515,11 @@ def main():
     run_mode(chk, "stream.c write path = Model/StreamWrite.v (tcp loopback via uv_tcp_open)",
              [hs, "tcp"], model, tcases)
 
+    ccases = FIXED_CONN + conn_corpus + \
+        [gen_conn_case(chk.rng) for _ in range(15000 if thorough else 2500)]
+    run_mode(chk, "stream.c write path = Model/StreamWrite.v (writes queued while uv_tcp_connect/uv_pipe_connect is pending)",
+             [hs, "unix"], model, ccases)
+
     chk.finish(
         level="proof",
         rule="random API scripts (write/try_write/shutdown/close/run, at top level and from inside write and "
@@ -412,7 +527,10 @@ def main():
              "EAGAIN, ENOBUFS, EINTR, hard errors), zero-length buffers, > IOV_MAX buffers, > 32 requests per "
              "wake-up, blocking streams; the answers actually given are replayed into the extracted model; "
              "compared: return codes, accepted chunks (request, offset, length), callback order/status, "
-             "write_queue_size after every step and inside every callback, shutdown(2) position, peer bytes/EOF",
+             "write_queue_size after every step and inside every callback, shutdown(2) position, peer bytes/EOF; "
+             "third pass: scripts that start between a real non-blocking uv_tcp_connect/uv_pipe_connect (to a "
+             "listener of the harness, or to an address nobody listens on) and the connect callback, with "
+             "connect(2)/getsockopt(SO_ERROR) answers logged and EINPROGRESS answers forced",
         trusted=["Coq 8.16.1 kernel (coqc)", "ExtrOcamlBasic extraction + OCaml 4.13.1 + zarith glue (ocaml/zutil.ml, drv_c05.ml)",
                  "harness/c05_stream.c (syscall wrappers, address->request mapping, peer drain), checks/c05.py (generator, monitor)",
                  "gcc 12, Linux AF_UNIX/TCP sockets"])
